@@ -2,6 +2,7 @@ package harness
 
 import (
 	"fmt"
+	"strings"
 
 	"verifrt/simos"
 )
@@ -24,9 +25,23 @@ func genC18WS(r *R, sc *Scenario) {
 		s.Out = append(s.Out, simos.OutChunk{AtMs: 200 + i*gap, Stream: 1, Data: fmt.Sprintf("w/%d\n", i)})
 	}
 	sc.Scripts["w"] = &TokenScript{Launches: []simos.Script{s}}
+	two := r.P(350)
+	if two {
+		// a second process followed over the same connection
+		spec.Procs = append(spec.Procs, &ProcSpec{Name: "x", Token: "x"})
+		s2 := simos.Script{LifeMs: n*gap + 500, ChunkMode: r.Intn(2)}
+		for i := 0; i < n; i++ {
+			s2.Out = append(s2.Out, simos.OutChunk{AtMs: 200 + i*gap, Stream: 1, Data: fmt.Sprintf("x/%d\n", i)})
+		}
+		sc.Scripts["x"] = &TokenScript{Launches: []simos.Script{s2}}
+	}
 	nf := r.Range(1, 3)
 	for i := 0; i < nf; i++ {
-		f := WSFollower{Name: fmt.Sprintf("f%d", i), Proc: "w", Offset: Pick(r, 0, 1, 5, 50, 300), AtMs: Pick(r, 0, 100, 200+n*gap/3, 200+n*gap/2),
+		proc := "w"
+		if two && r.P(700) {
+			proc = "w,x"
+		}
+		f := WSFollower{Name: fmt.Sprintf("f%d", i), Proc: proc, Offset: Pick(r, 0, 1, 5, 50, 300), AtMs: Pick(r, 0, 100, 200+n*gap/3, 200+n*gap/2),
 			Mode: Pick(r, "read", "read", "read", "stall", "disconnect"), BufBytes: Pick(r, 256, 4096, 65536)}
 		if f.Mode != "read" {
 			f.After = Pick(r, 0, 1, 10, 50)
@@ -44,37 +59,39 @@ func checkC18WS(sc *Scenario, res *RunResult, t *Truth) []Violation {
 	add := func(class, disc, msg string, seq int) {
 		vs = append(vs, Violation{"C18", class, disc, msg, seq})
 	}
-	// what the process wrote, in order
-	var lines []string
-	idx := map[string]int{}
-	writeSeq := []int{}
-	for _, in := range t.ByRep["w"] {
-		for _, w := range in.Writes {
-			for _, ln := range splitLines(w.Text) {
-				idx[ln] = len(lines)
-				lines = append(lines, ln)
-				writeSeq = append(writeSeq, w.Seq)
-			}
-		}
+	for _, p := range res.Out.Panics {
+		add("follower-crashes-the-supervisor", topSutFrame(p.Stack), fmt.Sprintf("panic in %s: %s", p.Task, p.Value), 0)
+		return vs
 	}
-	writtenBefore := func(seq int) int {
-		n := 0
-		for _, s := range writeSeq {
-			if s < seq {
-				n++
+	// what each process wrote, in order
+	type written struct {
+		lines []string
+		idx   map[string]int
+		seqs  []int
+	}
+	procs := map[string]*written{}
+	for _, p := range sc.Project.Procs {
+		w := &written{idx: map[string]int{}}
+		for _, in := range t.ByRep[p.Name] {
+			for _, wr := range in.Writes {
+				for _, ln := range splitLines(wr.Text) {
+					w.idx[ln] = len(w.lines)
+					w.lines = append(w.lines, ln)
+					w.seqs = append(w.seqs, wr.Seq)
+				}
 			}
 		}
-		return n
+		procs[p.Name] = w
 	}
 	type fol struct {
 		spec            *WSFollower
-		got             []string
+		got             map[string][]string // per followed process
 		dial, open, end int
 		endKind         string
 	}
 	fols := map[string]*fol{}
 	for i := range sc.WS {
-		fols[sc.WS[i].Name] = &fol{spec: &sc.WS[i], dial: -1, open: -1, end: -1}
+		fols[sc.WS[i].Name] = &fol{spec: &sc.WS[i], dial: -1, open: -1, end: -1, got: map[string][]string{}}
 	}
 	for i := range t.Events {
 		e := &t.Events[i]
@@ -88,19 +105,16 @@ func checkC18WS(sc *Scenario, res *RunResult, t *Truth) []Violation {
 		case "ws.open":
 			f.open = e.Seq
 		case "ws.line":
-			f.got = append(f.got, e.A)
+			f.got[e.B] = append(f.got[e.B], e.A)
 		case "ws.closed", "ws.disconnect", "ws.stall", "ws.dial.err":
 			if f.end < 0 {
 				f.end, f.endKind = e.Seq, e.Kind+" "+e.A
 			}
 		}
 	}
-	for _, p := range res.Out.Panics {
-		add("follower-crashes-the-supervisor", topSutFrame(p.Stack), fmt.Sprintf("panic in %s: %s", p.Task, p.Value), 0)
-		return vs
-	}
 	// a follower that stops reading (or disconnects) holds nobody up
 	cause := "no-idle-follower"
+	anyStall := false
 	for _, name := range sortedKeys(fols) {
 		switch f := fols[name]; {
 		case f.spec.Mode == "stall" && f.spec.StallMs < 0:
@@ -108,109 +122,121 @@ func checkC18WS(sc *Scenario, res *RunResult, t *Truth) []Violation {
 		case f.spec.Mode == "disconnect" && cause == "no-idle-follower":
 			cause = "follower-disconnected"
 		}
+		if fols[name].spec.Mode == "stall" {
+			anyStall = true // while a follower stalls the log may lag behind what was written
+		}
 	}
 	if t.Hang || t.RunRet < 0 {
-		add("follower-holds-up-the-process", cause, "the followed process never completed (Run() did not return): its output handling is blocked behind a follower", t.EndSeq)
+		add("follower-holds-up-the-process", cause, "a followed process never completed (Run() did not return): its output handling is blocked behind a follower", t.EndSeq)
 		return vs
 	}
-	if st, ok := t.Final.States["w"]; ok && st.Status != "Completed" {
-		add("follower-holds-up-the-process", cause, fmt.Sprintf("the followed process is reported %s after its command exited", st.Status), t.EndSeq)
-	}
-	if len(vs) > 0 {
-		return vs // the log stopped moving: what the followers saw says nothing more
+	for _, p := range sc.Project.Procs {
+		if st, ok := t.Final.States[p.Name]; ok && st.Status != "Completed" {
+			add("follower-holds-up-the-process", cause, fmt.Sprintf("the followed process %s is reported %s after its command exited", p.Name, st.Status), t.EndSeq)
+			return vs
+		}
 	}
 	for _, name := range sortedKeys(fols) {
 		f := fols[name]
 		if f.dial < 0 {
 			continue
 		}
-		if f.open < 0 {
-			if f.endKind != "" && writtenBefore(f.dial) < len(lines) {
-				add("follower-refused", "", fmt.Sprintf("follower %s could not subscribe: %s", name, f.endKind), f.end)
-				return vs
+		for _, pn := range strings.Split(f.spec.Proc, ",") {
+			w := procs[pn]
+			if w == nil {
+				continue
 			}
-			continue
-		}
-		// the lines received are a gap-free, duplicate-free run of what was written
-		prev := -1
-		for k, ln := range f.got {
-			j, ok := idx[ln]
-			if !ok {
-				continue // a line the supervisor itself put into the log
-			}
-			if prev >= 0 && j != prev+1 {
-				kind := "follower-gap"
-				if j <= prev {
-					kind = "follower-duplicate-or-reordered"
+			writtenBefore := func(seq int) int {
+				n := 0
+				for _, s := range w.seqs {
+					if s < seq {
+						n++
+					}
 				}
-				add(kind, "websocket", fmt.Sprintf("follower %s (tail %d) received %q right after %q (message %d)", name, f.spec.Offset, ln, lines[prev], k), f.open)
-				return vs
+				return n
 			}
-			prev = j
-		}
-		first := -1
-		for _, ln := range f.got {
-			if j, ok := idx[ln]; ok {
-				first = j
-				break
-			}
-		}
-		anyStall := false
-		for i := range sc.WS {
-			if sc.WS[i].Mode == "stall" {
-				anyStall = true // while a follower stalls the log may lag behind what was written
-			}
-		}
-		if first >= 0 && !anyStall {
-			// the subscription took place between the dial and the first message: the log held
-			// between wLo and wHi lines then (whole fake instants, so that the reader's own lag
-			// does not matter), and the tail starts offset lines before its end
-			dialT, openT := t.Events[f.dial].T, t.Events[f.open].T
-			wLo, wHi := 0, 0
-			for _, sq := range writeSeq {
-				if t.Events[sq].T < dialT {
-					wLo++
+			if f.open < 0 {
+				if f.endKind != "" && writtenBefore(f.dial) < len(w.lines) {
+					add("follower-refused", "", fmt.Sprintf("follower %s could not subscribe: %s", name, f.endKind), f.end)
+					return vs
 				}
-				if t.Events[sq].T <= openT {
-					wHi++
+				continue
+			}
+			got := f.got[pn]
+			// the lines received are a gap-free, duplicate-free run of what was written
+			prev, first := -1, -1
+			for k, ln := range got {
+				j, ok := w.idx[ln]
+				if !ok {
+					continue // a line the supervisor itself put into the log
+				}
+				if first < 0 {
+					first = j
+				}
+				if prev >= 0 && j != prev+1 {
+					kind := "follower-gap"
+					if j <= prev {
+						kind = "follower-duplicate-or-reordered"
+					}
+					add(kind, "websocket", fmt.Sprintf("follower %s of %s (tail %d) received %q right after %q (message %d)", name, pn, f.spec.Offset, ln, w.lines[prev], k), f.open)
+					return vs
+				}
+				prev = j
+			}
+			if first >= 0 && !anyStall && len(strings.Split(f.spec.Proc, ",")) == 1 {
+				// the subscription took place between the dial and the first message: the log held
+				// between wLo and wHi lines then (whole fake instants, so that the reader's own lag
+				// does not matter), and the tail starts offset lines before its end
+				dialT, openT := t.Events[f.dial].T, t.Events[f.open].T
+				wLo, wHi := 0, 0
+				for _, sq := range w.seqs {
+					if t.Events[sq].T < dialT {
+						wLo++
+					}
+					if t.Events[sq].T <= openT {
+						wHi++
+					}
+				}
+				lo, hi := wLo-f.spec.Offset, wHi-f.spec.Offset
+				if lo < 0 {
+					lo = 0
+				}
+				if hi < 0 {
+					hi = 0
+				}
+				if first < lo && wHi <= 1000 {
+					add("follower-tail-too-long", "websocket", fmt.Sprintf("follower %s asked for a tail of %d lines and connected when %d..%d lines had been written, but received lines from %q on", name, f.spec.Offset, wLo, wHi, w.lines[first]), f.open)
+					return vs
+				}
+				if first > hi {
+					add("follower-gap-at-hand-over", "websocket", fmt.Sprintf("follower %s asked for a tail of %d lines and connected when %d..%d lines had been written, but the first line it received is %q", name, f.spec.Offset, wLo, wHi, w.lines[first]), f.open)
+					return vs
 				}
 			}
-			lo, hi := wLo-f.spec.Offset, wHi-f.spec.Offset
-			if lo < 0 {
-				lo = 0
-			}
-			if hi < 0 {
-				hi = 0
-			}
-			if first < lo && wHi <= 1000 {
-				add("follower-tail-too-long", "websocket", fmt.Sprintf("follower %s asked for a tail of %d lines and connected when %d..%d lines had been written, but received lines from %q on", name, f.spec.Offset, wLo, wHi, lines[first]), f.open)
-				return vs
-			}
-			if first > hi {
-				add("follower-gap-at-hand-over", "websocket", fmt.Sprintf("follower %s asked for a tail of %d lines and connected when %d..%d lines had been written, but the first line it received is %q", name, f.spec.Offset, wLo, wHi, lines[first]), f.open)
-				return vs
-			}
-		}
-		if f.spec.Mode == "read" && t.RunRet >= 0 && len(lines) > 0 && writtenBefore(f.open) < len(lines) {
-			if prev != len(lines)-1 {
-				last := "nothing"
-				if prev >= 0 {
-					last = lines[prev]
+			if f.spec.Mode == "read" && len(w.lines) > 0 && writtenBefore(f.open) < len(w.lines) && cause != "follower-stopped-reading" {
+				if prev != len(w.lines)-1 {
+					last := "nothing"
+					if prev >= 0 {
+						last = w.lines[prev]
+					}
+					add("follower-missed-the-end", "websocket", fmt.Sprintf("follower %s kept reading but the last line of %s it received is %s; the process wrote %d lines (the last is %q)", name, pn, last, len(w.lines), w.lines[len(w.lines)-1]), f.open)
+					return vs
 				}
-				add("follower-missed-the-end", "websocket", fmt.Sprintf("follower %s kept reading but the last line it received is %s; the process wrote %d lines (the last is %q)", name, last, len(lines), lines[len(lines)-1]), f.open)
-				return vs
 			}
 		}
 	}
-	if got := res.FinalLogs["w"]; len(lines) > 0 && len(lines) <= 1000 {
-		have := map[string]bool{}
-		for _, l := range got {
-			have[l] = true
-		}
-		for _, l := range lines {
-			if !have[l] {
-				add("line-lost-behind-follower", "", fmt.Sprintf("line %q of the followed process is not in its log", l), t.EndSeq)
-				break
+	for _, p := range sc.Project.Procs {
+		w := procs[p.Name]
+		if got := res.FinalLogs[p.Name]; len(w.lines) > 0 && len(w.lines) <= 1000 {
+			have := map[string]bool{}
+			for _, l := range got {
+				have[l] = true
+			}
+			for _, l := range w.lines {
+				if !have[l] {
+					add("line-lost-behind-follower", "", fmt.Sprintf("line %q of the followed process %s is not in its log", l, p.Name), t.EndSeq)
+					return vs
+				}
 			}
 		}
 	}
